@@ -281,11 +281,11 @@ class MultiNestedTensor(_MultiTensor):
         fill_value: int | float | Tensor,
     ) -> None:
         start_idx = torch.arange(
-            col_index,
+            0,
             self.num_rows * self.num_cols,
             self.num_cols,
             device=self.device,
-        )
+        ) + col_index
         diff = self.offset[start_idx + 1] - self.offset[start_idx]
         batch, arange = _batched_arange(diff)
         # Compute values
